@@ -125,8 +125,9 @@ def iter_outcomes(spec, ctx, cfg=None, call=None):
         return dict(m=m, teams=teams, objs=objs, ids=ids, before=before, d0=d0, out=out, exc=exc, W=W)
 
     stats = {}
+    # float_rounding: +, -, * on float-kinded rank values are only known up to half an ulp (absorption)
     # int_rounding: float() of an int-kinded value above 2^53 is only known up to half an ulp (models precision loss)
-    opts = {'deadline': ctx.deadline, 'branch_timeout': 10000, 'int_rounding': True}
+    opts = {'deadline': ctx.deadline, 'branch_timeout': 10000, 'int_rounding': True, 'float_rounding': True}
     try:
         for (kind, val), eng in core.iter_paths(run, base, draw_ranks(n, menu), opts=opts, stats=stats):
             yield kind, val, eng
@@ -158,6 +159,13 @@ def nasty_vectors(n):
     out.append([1 + 0.25 * i for i in range(n)][::-1])
     out.append([0.3 * i for i in range(n)][::-1])
     out.append([-0.5 * i for i in range(n)])
+    # absorption: small distinct values next to a huge one collapse under +/- with the huge one
+    out.append([1e18] + [float(n - i) for i in range(1, n)])
+    out.append([float(i + 1) for i in range(n - 1)] + [1e18])
+    out.append([10 ** 18] + [1.5 + i for i in range(n - 1)])
+    out.append([1.0] + [i * 1e-17 for i in range(n - 1, 0, -1)])
+    out.append([-1e18] + [float(i) for i in range(1, n)])
+    out.append([float(i) for i in range(1, n)] + [-1e18])
     return [{'vals': encode_vals(v)} for v in out]
 
 
